@@ -63,11 +63,13 @@ pub struct Ctx {
   /// when set, every inner observable a flat_map creates is wrapped in a probe stage whose log
   /// is appended here (in creation order)
   pub inner_probes: Option<Arc<Mutex<Vec<Arc<Mutex<ProbeLog>>>>>>,
+  /// how often the functions handed to `start` / `defer` were called
+  pub factory_calls: Arc<Mutex<u64>>,
 }
 
 impl Ctx {
   pub fn new(srcs: Vec<Observable<'static, Val>>) -> Ctx {
-    Ctx { srcs, token: None, probes: Arc::new(Mutex::new(Vec::new())), taps: Arc::new(Mutex::new(TapCounts::default())), allow_threads: false, inner_probes: None }
+    Ctx { srcs, token: None, probes: Arc::new(Mutex::new(Vec::new())), taps: Arc::new(Mutex::new(TapCounts::default())), allow_threads: false, inner_probes: None, factory_calls: Arc::new(Mutex::new(0)) }
   }
 }
 
@@ -187,14 +189,21 @@ pub fn build(j: &Json, ctx: &Ctx) -> Option<Observable<'static, Val>> {
       "error" => observables::error(mk_err(a0)),
       "repeat" => observables::repeat(Val::Int(a0)),
       "endless_iter" => observables::from_iter((0i64..).map(Val::Int)),
-      "start" => observables::start(move || {
-        let _t = &tok;
-        Val::Int(a0)
-      }),
+      "start" => {
+        let fc = ctx.factory_calls.clone();
+        observables::start(move || {
+          let _t = &tok;
+          *fc.lock().unwrap() += 1;
+          rt::probe("start-function");
+          Val::Int(a0)
+        })
+      }
       "defer" => {
         let inner = build(j.get("in")?, ctx)?;
+        let fc = ctx.factory_calls.clone();
         observables::defer(move || {
           let _t = &tok;
+          *fc.lock().unwrap() += 1;
           inner.clone()
         })
       }
